@@ -107,6 +107,20 @@ static void corpus_curve(void)
         r = crypto_kx_server_session_keys(q, q + 32, BOX_TABLE[i].pkb, BOX_TABLE[i].skb, BOX_TABLE[i].pka); rec("kx_server", i, 0, r, q, 64); }
     { static const unsigned char lo[32] = { 0 }; unsigned char e[32]; memset(e, 0, 32); e[0] = 1; r = crypto_scalarmult(q, K, lo); rec("scalarmult-loworder", 0, 0, r, NULL, 0); r = crypto_scalarmult(q, K, e); rec("scalarmult-loworder", 1, 0, r, NULL, 0);
       memset(e, 0xff, 32); r = crypto_scalarmult(q, K, e); rec("scalarmult-noncanonical", 0, 0, r, q, r == 0 ? 32 : 0); }
+    /* structured u-coordinates: every one-hot value 2^k, every value with a single non-zero byte (each byte position x {01, 80, ff}), the seven
+     * block-listed low-order encodings with each top byte 00..ff changed in turn (only the exact encodings may be refused), p +- small, 2^255 - small */
+    { static const unsigned char LOW[7][32] = {
+        { 0 }, { 1 },
+        { 0xe0,0xeb,0x7a,0x7c,0x3b,0x41,0xb8,0xae,0x16,0x56,0xe3,0xfa,0xf1,0x9f,0xc4,0x6a,0xda,0x09,0x8d,0xeb,0x9c,0x32,0xb1,0xfd,0x86,0x62,0x05,0x16,0x5f,0x49,0xb8,0x00 },
+        { 0x5f,0x9c,0x95,0xbc,0xa3,0x50,0x8c,0x24,0xb1,0xd0,0xb1,0x55,0x9c,0x83,0xef,0x5b,0x04,0x44,0x5c,0xc4,0x58,0x1c,0x8e,0x86,0xd8,0x22,0x4e,0xdd,0xd0,0x9f,0x11,0x57 },
+        { 0xec,0xff,0xff,0xff,0xff,0xff,0xff,0xff,0xff,0xff,0xff,0xff,0xff,0xff,0xff,0xff,0xff,0xff,0xff,0xff,0xff,0xff,0xff,0xff,0xff,0xff,0xff,0xff,0xff,0xff,0xff,0x7f },
+        { 0xed,0xff,0xff,0xff,0xff,0xff,0xff,0xff,0xff,0xff,0xff,0xff,0xff,0xff,0xff,0xff,0xff,0xff,0xff,0xff,0xff,0xff,0xff,0xff,0xff,0xff,0xff,0xff,0xff,0xff,0xff,0x7f },
+        { 0xee,0xff,0xff,0xff,0xff,0xff,0xff,0xff,0xff,0xff,0xff,0xff,0xff,0xff,0xff,0xff,0xff,0xff,0xff,0xff,0xff,0xff,0xff,0xff,0xff,0xff,0xff,0xff,0xff,0xff,0xff,0x7f } };
+      unsigned char u[32]; int k, b, v;
+      for (k = 0; k < 256; k++) { memset(u, 0, 32); u[k >> 3] = (unsigned char) (1u << (k & 7)); r = crypto_scalarmult(q, K, u); rec("scalarmult-onehot", k, 0, r, q, r == 0 ? 32 : 0); }
+      for (b = 0; b < 32; b++) for (v = 0; v < 3; v++) { memset(u, 0, 32); u[b] = (unsigned char) (v == 0 ? 0x01 : v == 1 ? 0x80 : 0xff); r = crypto_scalarmult(q, K, u); rec("scalarmult-onebyte", b, v, r, q, r == 0 ? 32 : 0); }
+      for (k = 0; k < 7; k++) for (b = 0; b < 32; b += (b < 2 || b > 29) ? 1 : 7) for (v = 0; v < 256; v += (b == 31 || b == 0) ? 1 : 51) { memcpy(u, LOW[k], 32); u[b] = (unsigned char) v; r = crypto_scalarmult(q, K, u); rec("scalarmult-near-loworder", k * 32 + b, v, r, q, r == 0 ? 32 : 0);
+          if (b == 31 && (v & 15) == 0) { r = crypto_box_beforenm(q, u, K); rec("box_beforenm-near-loworder", k * 32 + b, v, r, q, r == 0 ? 32 : 0); } } }
     r = crypto_box_seed_keypair(pk, sk, K); rec("box_seed_keypair", 0, 0, r, pk, 32); absorb(sk, 32); r = crypto_kx_seed_keypair(pk, sk, K); rec("kx_seed_keypair", 0, 0, r, pk, 32); absorb(sk, 32);
     family("ed25519");
     for (i = 0; i < 6; i++) { vf_pat(q, 32, i, 901); r = crypto_sign_seed_keypair(pk, sk, q); rec("sign_seed_keypair", i, 0, r, pk, 32);
